@@ -110,7 +110,8 @@ def handle (j : Json) : Except String Json := do
     let total := main.length + (fs.map (·.2.length)).sum + fs.length + 1
     let m := splice fs total [] main
     return Json.mkObj [("model", match m with | some l => itemsJson l | none => Json.null),
-      ("spec", itemsJson (spliceSpec fs (fs.length + 1) main))]
+      ("spec", itemsJson (spliceSpec fs (fs.length + 1) main)),
+      ("in_domain", Json.bool (deepOK fs (fs.length + 1) main && decide (incNames (spliceSpec fs (fs.length + 1) main)).Nodup))]
   | _ => err s!"C03: unknown op {op}"
 
 end Shelx.Drv.C03
